@@ -75,6 +75,20 @@ def rfcBest (s : Str) : Option (List Segment × Rfc.Verdict) :=
     | none => some (q, v)
     | some (_, v0) => if Rfc.rank v > Rfc.rank v0 then some (q, v) else acc) none
 
+/-- is the exact rational n/d a finite normal f64 (so that the exact-number model and f64 agree on it)? -/
+def oddPart : Nat → Nat → Nat
+  | 0, n => n
+  | f+1, n => if n % 2 == 0 && n != 0 then oddPart f (n / 2) else n
+def f64Exact (nd : Int × Nat) : Bool :=
+  let (n, d) := nd
+  if d == 0 then false else
+  let g := Nat.gcd n.natAbs d
+  let n' := n.natAbs / g
+  let d' := d / g
+  if n' == 0 then true
+  else oddPart 2000 d' == 1 && oddPart 2000 n' < 2 ^ 53 && n' < d' * 2 ^ 1023 && n' * 2 ^ 1022 ≥ d'
+def i64Exact (i : Int) : Bool := oddPart 2000 i.natAbs < 2 ^ 53
+
 def verdictStr : Rfc.Verdict → String
   | .valid => "valid" | .invalid => "invalid" | .custom => "custom" | .unjudged => "unjudged"
 
@@ -116,7 +130,7 @@ def evalCase (line : String) : String :=
         ",\"multisel\":" ++ bstr (KF.multiSelOnMulti dummyEngine d segs [([], d)]) ++
         ",\"ast_agree\":" ++ bstr astAgree ++
         ",\"ok_hyp\":" ++ bstr (okSegsB segs) ++
-        ",\"float_overflow\":" ++ bstr (decide (((",".intercalate (segs.map segJ)).splitOn ",\"0\"]}").length > 1)) ++
+        ",\"float_overflow\":" ++ bstr (!((Rfc.fSegs segs).litFloats.all f64Exact && (Rfc.fSegs segs).litInts.all i64Exact)) ++
         ",\"regex_unsupported\":" ++ bstr (reUnsupported || specUns) ++ "}"
       "{\"impl\":" ++ impl ++ ",\"spec\":" ++ spec ++ ",\"rfc\":\"" ++ verdictStr v ++ "\",\"flags\":" ++ flags ++ "}"
 
